@@ -177,7 +177,8 @@ class World:
                 'gc_entry_retaken_in_window', 'unlink_all_removed',
                 'unlink_all_skipped_foreign', 'net_requests',
                 'net_replies_ok', 'net_replies_error',
-                'net_same_ip_after_restart', 'svc_restarts',
+                'net_same_ip_after_restart',
+                'net_held_ip_checked_after_restart', 'svc_restarts',
                 'svc_restart_with_live_requests', 'svc_start_failed',
                 'stale_requests_reclaimed', 'ip_reused',
                 'id_requested_again_before_delete_processed',
@@ -969,6 +970,19 @@ class World:
             if self.prop == 'C14':
                 self.nontrivial += 1
         self.ipt.actor = 'svc'
+        # what the service acknowledged to requests that are still registered
+        # and whose device is intact (its veth exists, is on the bridge and
+        # carries the request's alias): the restart must not release it
+        held = {}
+        if self.prop == 'C14':
+            for rid in live_before:
+                ip = (self.req.get(rid) or {}).get('ip')
+                dev = self.netdev.devs.get(
+                    network_service._device_from_rsrc_id(rid)[0])
+                if ip is not None and dev is not None and \
+                        dev['master'] == 'br0' and dev['alias'] == rid:
+                    held[rid] = ip
+        bridge_creates = self.netdev.bridge_creates
         impl = network_service.NetworkResourceService(
             ext_device=EXT_DEV, ext_ip=EXT_IP, ext_mtu=9000, ext_speed=10000)
         watcher = None
@@ -1006,6 +1020,25 @@ class World:
         self.impl = impl
         self.watcher = watcher
         self.log.ev('svc_start', 'up', sorted(impl._devices))
+        if held and self.netdev.bridge_creates == bridge_creates:
+            # (a bridge that had to be re-created detaches every container:
+            # recovery by destruction, left open)
+            vips = netcheck.read_links(self.vips_dir)
+            still = set(self._live_requests())
+            for rid, ip in sorted(held.items()):
+                if rid not in still:
+                    continue
+                self.probes['net_held_ip_checked_after_restart'] += 1
+                if vips.get(ip) != rid:
+                    self.fail('C14:netsvc-released-held-ip%s' % (
+                        ':then-held-by-another' if ip in vips else ''),
+                              'the restarted service released ip %s, which it '
+                              'had acknowledged to %s: the request is still '
+                              'registered, its device was intact and it never '
+                              'released anything%s' % (
+                                  ip, rid, ' (now held by %s)' % vips[ip]
+                                  if ip in vips else ''))
+                    return
         self._netsvc_check(op, synced=True, exempt=self.seam.failed)
 
     def op_svc_crash(self, op):
@@ -1977,6 +2010,12 @@ class Generator:
                                         [errno.EIO, errno.ESTALE,
                                          errno.EACCES])}
                 return op
+        nlive = len(world._live_requests())
+        if nlive and self.frng.random() < self.config['p_cmd_fail']:
+            # initialize() makes 7 commands on a healthy bridge; each
+            # replayed request of a healthy container makes one (ipset add)
+            op['fail_at'] = 7 + self.frng.randint(1, nlive)
+            return op
         return self._faults(op, 30, self.config['p_svc_kill'] * 0.5,
                             self.config['p_cmd_fail'])
 
